@@ -16,10 +16,12 @@ pub mod prelude {
         IntoParallelRefIterator, IntoParallelRefMutIterator, ParallelBridge, ParallelExtend,
         ParallelIterator,
     };
+    pub use crate::iter::{ParallelDrainFull, ParallelDrainRange};
     pub use crate::slice::{ParallelSlice, ParallelSliceMut};
 }
 
 pub use sim::{
-    current_num_threads, current_thread_index, join, scope, scope_fifo, spawn, spawn_fifo, Scope,
-    ThreadPool, ThreadPoolBuildError, ThreadPoolBuilder,
+    current_num_threads, current_thread_has_pending_tasks, current_thread_index, in_place_scope, in_place_scope_fifo, join, join_context,
+    max_num_threads, scope, scope_fifo, spawn, spawn_fifo, yield_local, yield_now, FnContext, Scope, ThreadPool, ThreadPoolBuildError,
+    ThreadPoolBuilder, Yield,
 };
